@@ -48,6 +48,7 @@ import warnings
 import numpy as np
 
 from ..gen import arrays as A
+from ..mon import siblings as S
 from ..mon.compare import compare_arrays, lazy_meta_mismatch
 
 PROP = "C23"
@@ -895,6 +896,31 @@ def _run_rc(case, ctx):
                 break
     ctx.sample = {"source": repr(src), "target": repr(tgt)[:80], "result": repr(got)[:120], "stages": stages,
                   "threshold": thr, "block_size_limit": bsl}
+    # ---- sibling facet: the same source rechunked to ANOTHER target must not share keys with this result ---------
+    # (outside the contract window: the sibling's normalize_chunks calls are not part of this case's contract counts)
+    srng = S.rng_for(case)
+    tgt2 = None
+    for _ in range(6):
+        enc = _rc_target(srng, shape, src)
+        if _has_bytes(enc) and bsl is not None:
+            continue
+        cand = dec(enc)
+        try:
+            e2 = _expected_rechunk(cand, shape, src)
+        except Exception:  # noqa: BLE001
+            continue
+        if any(c is None for c in e2) or tuple(e2) != got:
+            tgt2 = cand
+            break
+    if tgt2 is not None:
+        def sibling():
+            with dask.config.set({"array.rechunk.method": cfg}):
+                return dx.rechunk(tgt2, threshold=thr, block_size_limit=bsl, balance=bal, method=method)
+
+        S.check(ctx, "rechunk", "chunks", r, sibling, compute=S.compute_blocks, compute_many=S.compute_many_blocks,
+                describe={"target": repr(tgt2)[:80]})
+    with _LOCK:
+        _ST["failures"] = []      # whatever the contract recorded for the sibling's own calls is not this case's business
 
 
 def _run_wl(case, ctx):
